@@ -471,7 +471,7 @@ PROP_EMITS = {'name': 'prop.name', 'readable': 'EMIT_readable(prop)', 'writable'
               'transfer-ownership': 'or_none(prop.transfer)', 'setter': 'or_none(prop.setter)', 'getter': 'or_none(prop.getter)',
               'default-value': 'or_none(prop.default_value)'}
 GENERIC_MODS = ['*.skip', '*.introspectable', '*.doc', '*.doc_position', '*.version', '*.version_doc', '*.deprecated',
-                '*.deprecated_doc', '*.stability', '*.stability_doc', '*.attributes', '*.file_positions{}']
+                '*.deprecated_doc', '*.stability', '*.stability_doc', '*.attributes']
 contract(P + '_parse_property', params={'self': 'GIRParser', 'node': 'Element', 'parent': 'Class|Interface'}, returns='Property',
          ghost={'prop': 'Property'}, props=('C07',),
          requires=[ATTR % (k, v) for k, v in PROP_EMITS.items()] + ['prop.name is not None', 'bool(prop.transfer)'],
